@@ -52,6 +52,19 @@ def _payload_dict(fn: ast.AST, arg: ast.AST) -> Optional[ast.Dict]:
     """The dict literal that a put() payload denotes (literal, or a name bound once to a literal)."""
     if isinstance(arg, ast.Dict):
         return arg
+    if isinstance(arg, ast.Call) and norm(arg.func) == "dict.fromkeys" and 1 <= len(arg.args) <= 2 and not arg.keywords:
+        # dict.fromkeys(KEYS[, v]) with KEYS a literal tuple/list of strings (possibly a module-level constant)
+        keys = arg.args[0]
+        if isinstance(keys, ast.Name):
+            mod = fn
+            while mod is not None and not isinstance(mod, ast.Module):
+                mod = getattr(mod, "_parent", None)
+            keys = astq.module_consts(mod).get(keys.id) if mod is not None and not astq.assignments_to(fn, keys.id) else None
+        if isinstance(keys, (ast.Tuple, ast.List)) and all(isinstance(k, ast.Constant) and isinstance(k.value, str) for k in keys.elts):
+            v = arg.args[1] if len(arg.args) == 2 else ast.Constant(value=None)
+            d = ast.Dict(keys=[k for k in keys.elts], values=[v for _ in keys.elts])
+            return ast.copy_location(d, arg)
+        return None
     if isinstance(arg, ast.Name):
         defs = [
             st
@@ -383,28 +396,35 @@ def check_consumer(prog: Program, res: Result) -> None:
     if not (reach & set(gnodes)):
         res.ob("C13-cons", True, fi.qualname, "marker branch never reaches get again", "", fi.where)
     else:
-        flag = None
-        if isinstance(outer, ast.While) and isinstance(outer.test, ast.UnaryOp) and isinstance(outer.test.op, ast.Not) \
-                and isinstance(outer.test.operand, ast.Name):
-            flag = outer.test.operand.id
-        if flag is None:
-            res.inconclusive(f"{fi.qualname}: stream loop is not `while not <flag>` and the marker branch can reach get()")
+        # the marker branch raises a flag; with that flag up, every test of it (`while not flag`, `if flag: break`) takes its
+        # exit arm, and on the remaining paths get() must be out of reach (a path that re-assigns the flag counts as reaching it)
+        sets_true = [s_ for s_ in ast.walk(test) if isinstance(s_, ast.Assign) and astq.in_body_of(s_, test, "body") and len(s_.targets) == 1 and isinstance(s_.targets[0], ast.Name)
+                     and isinstance(s_.value, ast.Constant) and s_.value.value is True]
+        flags = {s_.targets[0].id for s_ in sets_true}
+        res.ob("C13-cons", bool(flags), fi.qualname, "marker branch raises an end-of-stream flag",
+               "the end-of-stream branch neither leaves the stream loop nor sets a flag: the consumer blocks on get() forever", f"{fi.module.relpath}:{test.lineno}")
+        if not flags:
             return
-        onodes = cfg.nodes_of(outer)
-        sets_true = [s for s in test.body if isinstance(s, ast.Assign) and astq.target_names(s.targets[0]) == {flag}
-                     and isinstance(s.value, ast.Constant) and s.value.value is True]
-        res.ob("C13-cons", bool(sets_true), fi.qualname, f"marker branch sets {flag} = True",
-               f"the end-of-stream branch does not set the loop flag `{flag}`: the consumer blocks on get() forever",
-               f"{fi.module.relpath}:{test.lineno}")
-        w = cfg.must_pass(true_succ, gnodes, onodes)
-        res.ob("C13-cons", w is None, fi.qualname, "marker branch reaches get only through the stream-loop test",
-               "after the end-of-stream marker the consumer can call get() again without re-testing the loop flag "
+
+        def flag_up(a_, b_, labels):
+            nd = cfg.nodes[a_]
+            st_ = nd.ast
+            t_ = st_.test if nd.kind == "test" and isinstance(st_, (ast.If, ast.While)) else None
+            if t_ is None:
+                return False
+            neg_ = isinstance(t_, ast.UnaryOp) and isinstance(t_.op, ast.Not)
+            nm_ = t_.operand if neg_ else t_
+            if isinstance(nm_, ast.Name) and nm_.id in flags:
+                return ("true" in labels) if neg_ else ("false" in labels)     # the arm taken only when the flag is down
+            return False
+
+        starts = [m for s_ in sets_true for n_ in cfg.nodes_of(s_) for m in cfg.g.successors(n_)]
+        resets = {n_ for s_ in walk_function(fn) if isinstance(s_, (ast.Assign, ast.AugAssign)) and astq.target_names(astq.stmt_targets(s_)[0]) & flags
+                  and not (isinstance(s_, ast.Assign) and isinstance(s_.value, ast.Constant) and s_.value.value is True) for n_ in cfg.nodes_of(s_)}
+        w = cfg.must_pass(starts, set(gnodes) | resets, set(), drop_edge=flag_up)
+        res.ob("C13-cons", w is None, fi.qualname, f"with {sorted(flags)} up, get() is out of reach",
+               "after the end-of-stream marker the consumer can call get() again (or lower the flag) without leaving the stream loop "
                f"(blocks forever): {cfg.path_str(w) if w else ''}", f"{fi.module.relpath}:{test.lineno}")
-        # the flag is not reset on the way
-        resets = [s for s in astq.assignments_to(fn, flag) if not (isinstance(s, ast.Assign) and isinstance(s.value, ast.Constant) and s.value.value is True)]
-        reset_in_loop = [s for s in resets if astq.in_body_of(s, outer, "body")]
-        res.ob("C13-cons", not reset_in_loop, fi.qualname, f"{flag} is never reset inside the stream loop",
-               f"`{flag}` is reassigned inside the stream loop", fi.where)
     # partial batch flush
     inf_calls = [c for c in walk_function(fn) if isinstance(c, ast.Call) and norm(c.func) == "self.inference_model"]
     res.ob("C13-cons", len(inf_calls) == 1, fi.qualname, "one inference call", f"{len(inf_calls)} inference call sites", fi.where)
@@ -474,6 +494,35 @@ def _in_video_branch(call: ast.Call) -> bool:
     return False
 
 
+def _reader_call_alternatives(fn: ast.AST, c: ast.Call):
+    """[(is the VideoReader being built?, keyword arguments)] for a `<reader>.from_filename(...)` call.  The reader class and
+    a `**kwargs` dict may be chosen per provider in the arms of a conditional and the call made once after it
+    (`reader = VideoReader; reader_kwargs = {...}` in one arm): then there is one alternative per arm."""
+    recv = c.func.value
+    explicit = [k for k in c.keywords if k.arg is not None]
+    stars = [k.value for k in c.keywords if k.arg is None and isinstance(k.value, ast.Name)]
+    rb = [b for b in astq.assignments_to(fn, recv.id)] if isinstance(recv, ast.Name) else []
+    rd = astq.reaching_def(fn, recv.id, c) if isinstance(recv, ast.Name) else None
+    if rd is not None and isinstance(rd.value, ast.Name):
+        recv = rd.value          # the class bound in the same arm as the call
+        rb = []
+    if len(rb) > 1 and all(isinstance(b, ast.Assign) and isinstance(b.value, ast.Name) for b in rb):
+        alts = []
+        for b in rb:
+            par = getattr(b, "_parent", None)
+            blk = next((getattr(par, f) for f in ("body", "orelse") if isinstance(getattr(par, f, None), list) and any(b is x for x in getattr(par, f))), [])
+            kws = list(explicit)
+            for sname in stars:
+                lits = [x for x in blk if isinstance(x, ast.Assign) and len(x.targets) == 1 and norm(x.targets[0]) == sname.id and isinstance(x.value, ast.Dict)]
+                if len(lits) == 1:
+                    kws += [ast.keyword(arg=k.value, value=v) for k, v in zip(lits[0].value.keys, lits[0].value.values) if isinstance(k, ast.Constant) and isinstance(k.value, str)]
+            alts.append((b.value.id.endswith("VideoReader"), kws))
+        return alts
+    ckw = astq.call_keywords(fn, c)     # **kwargs built from one literal + item stores written out
+    is_video = any(k.arg in ("start_idx", "end_idx") for k in ckw) or _in_video_branch(c) or norm(recv).endswith("VideoReader")
+    return [(is_video, ckw)]
+
+
 def check_range(prog: Program, res: Result) -> None:
     """The requested range (start_idx, end_idx) reaches the read loop unchanged: an absent bound is recognised by
     identity with None - never by truthiness, because 0 is a valid index (end_idx=0 is the empty range, not 'whole
@@ -527,14 +576,18 @@ def check_range(prog: Program, res: Result) -> None:
         for c in walk_function(fi.node):
             if not isinstance(c, ast.Call) or not isinstance(c.func, ast.Attribute):
                 continue
-            if c.func.attr == "from_filename" and (any(k.arg in ("start_idx", "end_idx") for k in c.keywords) or _in_video_branch(c)):
+            for is_video, ckw in (_reader_call_alternatives(fi.node, c) if c.func.attr == "from_filename" else []):
+                if not is_video:
+                    continue
                 res.touch(fi)
-                kw = {k.arg: k.value for k in c.keywords}
+                kw = {k.arg: k.value for k in ckw}
                 for a, b in (("start_idx", "video_start_idx"), ("end_idx", "video_end_idx")):
                     n_fwd += 1
                     res.ob(R, a in kw and norm(kw[a]) == b, fi.qualname, f"make_pipeline forwards {b} as {a}",
                            f"`{short(c, 50)}` passes {short(kw[a], 30) if a in kw else 'nothing'} as `{a}`: the requested range is not the one read",
                            f"{fi.module.relpath}:{c.lineno}")
+            if False:
+                pass
             elif c.func.attr == "make_pipeline" and "predictor" in norm(c.func.value):
                 res.touch(fi)
                 tgt = prog.cls("sleap_nn.inference.predictors:Predictor").methods.get("make_pipeline")
@@ -581,7 +634,9 @@ def check_batch(prog: Program, res: Result) -> None:
            and any(isinstance(c, ast.Call) and _is_buffer_call(c, "get") for c in ast.walk(lp))]
     ok = len(rng) == 1 and astq.xnorm(gen.node, rng[0].iter.args[0]).replace('"', "'") == "self.preprocess_config['batch_size']"
     res.ob(R, ok, gen.qualname, "the batch loop runs range(preprocess_config['batch_size'])", "the batch loop bound is not preprocess_config['batch_size']", gen.where)
-    res.floor(R, 7)
+    # vacuity guard: at least one store per make_pipeline implementation (6 on the pinned tree, one per provider arm; fewer when
+    # the dict is built once after the provider branch or by a shared helper) plus the consumer's loop
+    res.floor(R, 4)
 
 
 def check_index_domain(prog: Program, res: Result) -> None:
